@@ -107,7 +107,8 @@ def seeded_all():
             continue
         try:
             for p in want:
-                rc = subprocess.run([os.path.join(vlib.ROOT, 'check'), p, 'quick'], capture_output=True, text=True).returncode
+                t = 'thorough' if 'thorough tier only' in idx[name]['detected_by'][p] else 'quick'
+                rc = subprocess.run([os.path.join(vlib.ROOT, 'check'), p, t], capture_output=True, text=True).returncode
                 log('selftest: seeded %-36s %s -> exit %d %s' % (name, p, rc, '' if rc == 1 else '(EXPECTED 1)'))
                 ok &= rc == 1
         finally:
